@@ -1263,6 +1263,8 @@ def main(outfile):
     py2lean_asyncinit.main_asyncinit(os.path.join(os.path.dirname(outfile), 'TranslatedAsyncInit.lean'), sys.modules[__name__])
     import py2lean_ctor                                          # separate module: Event / Repeat constructors, task monitor (C18)
     py2lean_ctor.main_ctor(os.path.join(os.path.dirname(outfile), 'TranslatedCtor.lean'), write_if_changed)
+    import py2lean_timerblk                                      # separate module: Timer, class FSM (C04)
+    py2lean_timerblk.main_timerblk(os.path.join(os.path.dirname(outfile), 'TranslatedTimerBlk.lean'), sys.modules[__name__])
 
 if __name__ == '__main__':
     main(sys.argv[1])
